@@ -25,11 +25,16 @@ class Evo:
             raise AnalysisError('public evolvent queries vanished')
         fwd = self._private_callees(self.get_image)
         inv = self._private_callees(self.get_inverse)
-        if len(fwd) != 2 or len(inv) != 2:
+        fd = [f for f in fwd if self._has_level_loop(f)]
+        ft = [f for f in fwd if not self._has_level_loop(f)]
+        idn = [f for f in inv if self._has_level_loop(f)]
+        it_ = [f for f in inv if not self._has_level_loop(f)]
+        if len(fd) != 1 or len(ft) != 1 or len(idn) != 1 or len(it_) != 1:
             raise AnalysisError(f'forward/inverse query structure not recognised: {[f.name for f in fwd]}, '
                                 f'{[f.name for f in inv]}')
-        self.forward, self.p2d = fwd            # descent, then cube -> box
-        self.d2p, self.inverse = inv            # box -> cube, then inverse descent
+        self.forward, self.p2d = fd[0], ft[0]          # descent, cube -> box
+        self.d2p, self.inverse = it_[0], idn[0]        # box -> cube, inverse descent
+        fwd, inv = [self.forward, self.p2d], [self.d2p, self.inverse]
         self.heavy = {n for n in self.cls.methods if n not in (m.name for m in (fwd + inv)) and
                       n.startswith('_') and not n.startswith('__init')
                       and n not in ('__init__',)}
@@ -37,18 +42,24 @@ class Evo:
         self.numbr_fn = self._level_callee(self.inverse)
 
     def _private_callees(self, f: FuncInfo) -> List[FuncInfo]:
-        out = []
+        res: List[FuncInfo] = []
         for n in ast.walk(f.node):
             if isinstance(n, ast.Call):
                 for c in self.ctx.pta.internal_callees(f, n):
-                    if c.cls is self.cls and c not in out:
-                        out.append((n.lineno, n.col_offset, c))
-        out.sort(key=lambda t: (t[0], t[1]))
-        res = []
-        for _, _, c in out:
-            if c not in res:
-                res.append(c)
+                    if c.cls is self.cls and c not in res and c.name != '__init__':
+                        res.append(c)
         return res
+
+    def _has_level_loop(self, f: FuncInfo) -> bool:
+        """A descent function: a top-level for loop whose body calls another private method of the class."""
+        for st in f.node.body:
+            if isinstance(st, ast.For):
+                for n in ast.walk(st):
+                    if isinstance(n, ast.Call):
+                        for c in self.ctx.pta.internal_callees(f, n):
+                            if c.cls is self.cls and c is not f:
+                                return True
+        return False
 
     def level_loop(self, f: FuncInfo) -> ast.For:
         """The outermost for loop of a descent function (one trip per density level)."""
@@ -110,52 +121,90 @@ def evo_of(ctx: Ctx) -> Evo:
 # ----------------------------------------------------------------------------
 # rules used by more than one property
 # ----------------------------------------------------------------------------
-def rule_affine(ctx: Ctx, rid: str):
-    """cube -> box map is y*(U-L) + (U+L)/2 per coordinate; box -> cube is its inverse."""
+def rule_affine(ctx: Ctx, rid: str, which=('P2D', 'D2P'), scope=None):
+    """cube -> box map is y*(U-L) + (U+L)/2 per coordinate; box -> cube is its inverse.  Per-coordinate loops
+    and whole-array (vectorised) forms are both accepted; attributes cached by the constructor are expanded only
+    when nothing they depend on can change afterwards."""
     e = evo_of(ctx)
     ex = e.explorer(unroll=1)
-    selfv = var(e.p2d.param_names[0])
-    scratch = None
     n = 0
     out = {}
-    for fn, which in ((e.p2d, 'P2D'), (e.d2p, 'D2P')):
+    half = RF.const(Fraction(1, 2))
+    for w in which:
+        fn = e.p2d if w == 'P2D' else e.d2p
+        selfv = var(fn.param_names[0])
+        Uarr = attr(selfv, 'upperBoundOfFloatVariables')
+        Larr = attr(selfv, 'lowerBoundOfFloatVariables')
+        has_loop = any(isinstance(nn, ast.For) for nn in fn.node.body)
+        msg = 'cube -> box map is y*(U-L) + (U+L)/2' if w == 'P2D' else 'box -> cube map is (y - (U+L)/2)/(U-L)'
+        done = False
         for p in C.normal_paths(ex.explore(fn)):
             its = [ev for ev in p.events if ev.kind == 'iter' and ev.depth == 0]
-            if not its:
+            if has_loop and not its:
                 continue
-            i = its[0].d['var']
-            sts = [s for s in C.stores_to(p, tkind='sub') if isinstance(s.d['field'], RF) and s.d['field'].equals(i)]
-            if not ctx.check(len(sts) == 1, rid, fn.short, fn.loc(), 'one store per coordinate',
-                             f'{fn.short} does not store exactly one value per coordinate', key=f'{rid}::{fn.short}::one-store'):
-                continue
-            n += 1
-            s = sts[0]
-            base = s.d['base']
-            U = sub(attr(selfv, 'upperBoundOfFloatVariables'), i)
-            L = sub(attr(selfv, 'lowerBoundOfFloatVariables'), i)
-            y = atomv(('sub', key_of(base), key_of(i), 0))
-            half = RF.const(Fraction(1, 2))
-            if which == 'P2D':
-                exp = y * (U - L) + (U + L) * half
-                msg = 'cube -> box map is y*(U-L) + (U+L)/2'
+            if its:
+                i = its[0].d['var']
+                sts = [s for s in C.stores_to(p, tkind='sub') if isinstance(s.d['field'], RF) and s.d['field'].equals(i)]
+                if not ctx.check(len(sts) == 1, rid, fn.short, fn.loc(), 'one store per coordinate',
+                                 f'{fn.short} does not store exactly one value per coordinate',
+                                 key=f'{rid}::{fn.short}::one-store'):
+                    continue
+                s_ = sts[0]
+                got = s_.d['value']
+                node = s_.node
+                U, L = sub(Uarr, i), sub(Larr, i)
+                skip = {C.strip_versions(key_of(U)), C.strip_versions(key_of(L))}
+                cands = {C.strip_versions(a) for a in (got.atoms() if isinstance(got, RF) else [])
+                         if isinstance(a, tuple) and a and a[0] == 'sub' and C.strip_versions(a[2]) == C.strip_versions(key_of(i))}
+                cands -= skip
             else:
-                exp = (y - (U + L) * half) / (U - L)
-                msg = 'box -> cube map is (y - (U+L)/2)/(U-L)'
-            got = C.rf_from_key(C.strip_versions(key_of(s.d['value']))) if False else s.d['value']
-            ok = isinstance(got, RF) and C.strip_rf(got).equals(C.strip_rf(exp))
-            ctx.check(ok, rid, fn.short, fn.loc(s.node), msg,
-                      f'{fn.short} stores {C.fmt(got)}; expected {C.fmt(exp)} ({msg}): images leave the box or the '
-                      f'two transforms are not inverse to each other', key=ctx.key_for(rid, fn, s.node))
-            out[which] = (got, y, i)
-        # loop covers all coordinates
-        lp = [nn for nn in fn.node.body if isinstance(nn, ast.For)]
-        okl = len(lp) == 1 and isinstance(lp[0].iter, ast.Call) and isinstance(lp[0].iter.func, ast.Name) and \
-            lp[0].iter.func.id == 'range' and isinstance(lp[0].iter.args[-1], ast.Attribute) and \
-            lp[0].iter.args[-1].attr == 'numberOfFloatVariables' and \
-            (len(lp[0].iter.args) == 1 or (isinstance(lp[0].iter.args[0], ast.Constant) and lp[0].iter.args[0].value == 0))
-        ctx.check(okl, rid, fn.short, fn.loc(), 'the transform loops over all N coordinates',
-                  f'{fn.short} does not loop over range(N) coordinates', key=f'{rid}::{fn.short}::all-coordinates')
-    ctx.floor(rid, 'affine transform stores analysed', n, 2)
+                # vectorised: the array bound to an attribute of self, or returned
+                sts = [s for s in p.stores() if s.d['tkind'] == 'attr' and s.depth == 0 and
+                       key_of(s.d['base']) == key_of(selfv)]
+                got = sts[-1].d['value'] if sts else p.value
+                node = sts[-1].node if sts else fn.node
+                U, L = Uarr, Larr
+                i = None
+                skip = {C.strip_versions(key_of(U)), C.strip_versions(key_of(L))}
+                cands = set()
+            if not isinstance(got, RF):
+                ctx.fail(rid, fn.short, fn.loc(node), f'{fn.short} does not compute an arithmetic expression of the '
+                                                      f'coordinate and the bounds', key=f'{rid}::{fn.short}::form')
+                continue
+            got = C.strip_rf(got)
+            got = C.strip_rf(C.subst_rf(got, {C.strip_versions(k): C.strip_versions(v)
+                                             for k, v in C.init_equalities(ctx, e.cls, scope).items()}))
+            if i is None:
+                cands = {a for a in got.atoms() if a not in skip and isinstance(a, tuple) and a and
+                         a[0] in ('attr', 'var', 'call', 'sub')}
+            if not ctx.check(len(cands) == 1, rid, fn.short, fn.loc(node), 'the transformed coordinate is identified',
+                             f'{fn.short}: the stored value {C.fmt(got)} is not a function of exactly one input '
+                             f'coordinate and the current bounds (inputs found: {sorted(map(C.fmt_key_safe, cands))}); '
+                             f'a value cached at construction time is stale after SetBounds',
+                             key=f'{rid}::{fn.short}::inputs'):
+                continue
+            y = RF.atom(next(iter(cands)))
+            Us, Ls = C.strip_rf(U), C.strip_rf(L)
+            exp = y * (Us - Ls) + (Us + Ls) * half if w == 'P2D' else (y - (Us + Ls) * half) / (Us - Ls)
+            n += 1
+            done = True
+            ok = got.equals(exp)
+            ctx.check(ok, rid, fn.short, fn.loc(node), msg,
+                      f'{fn.short} computes {C.fmt(got)}; expected {C.fmt(exp)} ({msg} with the evolvent\'s current '
+                      f'bounds)', key=ctx.key_for(rid, fn, node))
+            out[w] = (got, y, i)
+        if has_loop:
+            lp = [nn for nn in fn.node.body if isinstance(nn, ast.For)]
+            okl = len(lp) == 1 and isinstance(lp[0].iter, ast.Call) and isinstance(lp[0].iter.func, ast.Name) and \
+                lp[0].iter.func.id == 'range' and isinstance(lp[0].iter.args[-1], ast.Attribute) and \
+                lp[0].iter.args[-1].attr == 'numberOfFloatVariables' and \
+                (len(lp[0].iter.args) == 1 or (isinstance(lp[0].iter.args[0], ast.Constant)
+                                               and lp[0].iter.args[0].value == 0))
+            ctx.check(okl, rid, fn.short, fn.loc(), 'the transform loops over all N coordinates',
+                      f'{fn.short} does not loop over range(N) coordinates', key=f'{rid}::{fn.short}::all-coordinates')
+        if not done and not any(f.rule == rid for f in ctx.findings):
+            raise AnalysisError(f'{rid}: could not analyse {fn.short}')
+    ctx.floor(rid, 'affine transform stores analysed', n, len(which))
     return out
 
 
